@@ -67,7 +67,7 @@ func cmdCheck(args []string) int {
 	fs.BoolVar(&o.verbose, "v", false, "verbose")
 	fs.StringVar(&o.dump, "dump", "", "directory to dump queries into")
 	fs.IntVar(&o.quickS, "t1", 4, "first-pass solver timeout (s)")
-	fs.IntVar(&o.fullS, "t2", 45, "second-pass solver timeout (s)")
+	fs.IntVar(&o.fullS, "t2", 120, "second-pass solver timeout (s)")
 	fs.IntVar(&o.jobs, "j", 12, "parallel obligations")
 	fs.BoolVar(&o.noReplay, "noreplay", false, "skip replay of counterexamples")
 	fs.IntVar(&o.seed, "seed", 0, "seed (recorded in evidence)")
